@@ -5,6 +5,10 @@
 //   (0-based, counted from the construction of the pool) fail.  The first task sleeps busyMs so that later submissions want a
 //   further worker.  Answer: one line `res <i>:<mode>:<a|x|f>:<ran>:<fut> ... | created=<n> failed=<n> stop=<0|1> ctor=<ok|throw>`
 //   a = call returned normally/true, x = call threw, f = tryEnqueue returned false; ran = times the body ran; fut = v|e|b|-.
+//   Each res token has two more fields `:<live>:<fd>`: live = thread creations that had SUCCEEDED when the call began (= live
+//   workers: the idle time-out is 30 s, no worker leaves during a case), fd = creations that failed DURING the call.
+//   When no creation has succeeded at all by the end, stop() is not called (it could only time out after 30 s): stop=0; the
+//   counters are read after the pool's destructor has returned in every case.
 #include <dlfcn.h>
 #include <pthread.h>
 #include <atomic>
@@ -50,6 +54,7 @@ int main()
     std::vector<std::unique_ptr<std::atomic<int>>> ran;
     for (std::size_t i = 0; i < modes.size(); ++i) ran.emplace_back(new std::atomic<int>(0));
     std::vector<char> res(modes.size(), '-');
+    std::vector<int> liveBefore(modes.size(), 0), failedDuring(modes.size(), 0);
     std::vector<std::future<int>> futs(modes.size());
     std::string ctor = "ok";
     int stopOk = 0;
@@ -62,6 +67,8 @@ int main()
         std::atomic<int>* r = ran[i].get();
         int ms = i == 0 ? busy : 0;
         auto body = [r, ms]() -> int { if (ms) std::this_thread::sleep_for(std::chrono::milliseconds(ms)); (*r)++; return 7; };
+        liveBefore[i] = g_created.load() - g_failed.load();
+        int f0 = g_failed.load();
         try
         {
           if (modes[i] == 'e') { pool.enqueue(body); res[i] = 'a'; }
@@ -69,10 +76,11 @@ int main()
           else { futs[i] = pool.enqueueWithResult(body); res[i] = 'a'; }
         }
         catch (...) { res[i] = 'x'; }
+        failedDuring[i] = g_failed.load() - f0;
         if (i == 0 && busy) std::this_thread::sleep_for(std::chrono::milliseconds(busy / 3 + 5));
       }
       g_on = false;
-      stopOk = pool.stop().success ? 1 : 0;
+      if (g_created.load() - g_failed.load() > 0) stopOk = pool.stop().success ? 1 : 0;
     }
     catch (...) { ctor = "throw"; }
     g_on = false;
@@ -85,8 +93,8 @@ int main()
         if (futs[i].wait_for(std::chrono::seconds(0)) != std::future_status::ready) fut = 'n';
         else { try { futs[i].get(); fut = 'v'; } catch (const std::future_error&) { fut = 'b'; } catch (...) { fut = 'e'; } }
       }
-      char b[64];
-      std::snprintf(b, sizeof b, " %zu:%c:%c:%d:%c", i, modes[i], res[i], ran[i]->load(), fut);
+      char b[96];
+      std::snprintf(b, sizeof b, " %zu:%c:%c:%d:%c:%d:%d", i, modes[i], res[i], ran[i]->load(), fut, liveBefore[i], failedDuring[i]);
       out += b;
     }
     char b[96];
